@@ -513,17 +513,20 @@ impl SvgElement {
     /// Implemented as a method rather than a `From` impl to keep private
     fn into_bytesstart(self) -> BytesStart<'static> {
         let mut bs = BytesStart::new(self.name);
+        // Attribute values are held unescaped (see `TryFrom<&BytesStart>`), so must
+        // be escaped on the way out; the `(&str, &str)` conversion does that, the
+        // `(&[u8], &[u8])` one writes the bytes as they are.
         for (k, v) in &self.attrs {
-            bs.push_attribute(Attribute::from((k.as_bytes(), v.as_bytes())));
+            bs.push_attribute(Attribute::from((k.as_str(), v.as_str())));
         }
         if !self.classes.is_empty() {
             bs.push_attribute(Attribute::from((
-                "class".as_bytes(),
+                "class",
                 self.classes
                     .into_iter()
                     .collect::<Vec<String>>()
                     .join(" ")
-                    .as_bytes(),
+                    .as_str(),
             )));
         }
         bs
